@@ -111,6 +111,30 @@ CLAIMED = {
          "NOT covered (stated gap): the recogniser closure in Parser::new (generator coroutine), select_graphic_rendition, define_charset, Parser::new/ByteParser::new, encoding_rs/generator-rs internals.",
     design="5 C01", technique="Verus implicit safety obligations + wf pre/postconditions on the verbatim functions; Kani for the dispatchers",
     note="As the general note. A panic introduced inside the recogniser closure, SGR or define_charset is NOT detectable by this check."),
+ 'C03': dict(
+    text="The shipping recogniser -- the body of the closure passed to Gn::new_scoped in Parser::new, #[cfg(not(test))] copy, cut out mechanically on every run (and compared with the "
+         "#[cfg(test)] copy) -- is verified by Verus as a non-terminating procedure whose every yield carries the trace invariant as a precondition: the calls received by the listener so "
+         "far equal, as a sequence, the events the documented grammar prescribes for the characters consumed so far, and the value yielded signals 'ground' exactly when the grammar's state "
+         "is ground. The grammar is an explicit-state recogniser (spec fn step/run) written from the property statement: C0 controls, ESC-final, ESC # / % / ( ), CSI with decimal parameters "
+         "(empty = 0, saturating at 9999 for digit runs of ANY length -- dec_val is a mathematical integer), ?, embedded controls, CAN/SUB, SP and >, $; OSC with BEL / U+009C / ESC \\. Unbounded: inputs of any "
+         "length, both parser modes. Kani proves, loop-free over the full domain, that csi_/escape_/basic_dispatch route every final byte to the documented method with the documented parameter "
+         "positions and do nothing for unknown finals, and that the control tables/constants have the assumed values. The fast path of Parser::feed (plain text drawn directly) is covered by C02's fold contract.",
+    design="5 C03", technique="Verus trace-invariant proof of the extracted recogniser closure (precondition on every yield) + Kani full-domain dispatch proofs",
+    note="ASSUMED: generator-rs is a faithful coroutine (co.yield_ returns the next single character sent; the priming send is never read); Arc<Mutex<_>> used single-threaded; the shared use_utf8 flag is constant during a trace; "
+         "~20 one-line string call-outs (String==&str, contains, parse::<u64>, push, skip(1).collect, ...) listed in trusted_base; println! dropped. The composition 'events of feed(data) = fast-path draws + recogniser events' "
+         "is argued in DESIGN.md from C02's fold contract and this unit's ground signal, not machine-checked across the two units."),
+ 'C19': dict(
+    text="Unit F (see C03) proves for OSC strings of ANY length and content that the recogniser emits set_icon_name for code 0/1 and set_title for code 0/2 with exactly the characters between the first "
+         "character after the code and the terminator (BEL, U+009C or ESC \\; a backslash, `;`, ESC x pairs and C0 controls other than BEL stay in the payload), nothing for other codes, no draw event for any "
+         "character of the sequence, and returns to ground; an empty payload sets the empty string. Verus proves set_title/set_icon_name store exactly their argument and change nothing else (grid, cursor untouched). Chunking: C02.",
+    design="5 C19", technique="Verus trace-invariant proof of the recogniser's OSC loop + contracts on set_title/set_icon_name",
+    note="As C03."),
+ 'C20': dict(
+    text="Kani proves all 768 entries of LAT1_MAP, VT100_MAP and IBMPC_MAP against independently generated references (symbolic index over the full domain). Verus proves: shift_in/shift_out select G0/G1 and nothing else; "
+         "new/reset start with G0=LAT1, G1=VT100; define_charset installs the looked-up table into G0 for mode '(' and G1 for ')' and ignores unknown codes/modes; draw's translation closure maps every code point <= 255 through the "
+         "active table and passes larger ones through; and (unit F) in UTF-8 mode SO/SI and `ESC ( x` / `ESC ) x` produce no event while in 8-bit mode they call shift_out/shift_in/define_charset(x, mode).",
+    design="5 C20", technique="Kani full-domain table proofs + Verus contracts (Screen side) + unit F (parser side)",
+    note="NOT verified: the lazy_static MAPS table itself (that keys B/0/U/V map to LAT1/VT100/IBMPC/VAX42) is an abstract lookup on the Verus side; VAX42_MAP has no independent reference offline and is not checked."),
 }
 NA = {}
 checks = []
